@@ -82,6 +82,29 @@ def acts_of(fn: ast.FunctionDef, in_build: bool):
     if in_build and local_dicts and any(a == "rebind" for _, a in acts):
         first_rebind = min(l for l, a in acts if a == "rebind")
         acts.append((first_rebind - 0.5, "buildLocal"))
+        # once published, the local dict IS the shared object: any later statement that mutates it — directly or through a
+        # nested helper that closes over it — is an in-place write to shared state
+        def base_name(e):
+            while isinstance(e, (ast.Subscript, ast.Attribute, ast.Call)):
+                e = e.value if not isinstance(e, ast.Call) else e.func
+            return e.id if isinstance(e, ast.Name) else None
+
+        def mutates_local(node):
+            if isinstance(node, (ast.Assign, ast.AugAssign)):
+                tg = node.targets if isinstance(node, ast.Assign) else [node.target]
+                if any(isinstance(t, ast.Subscript) and base_name(t) in local_dicts for t in tg):
+                    return True
+            if isinstance(node, ast.Delete) and any(isinstance(t, ast.Subscript) and base_name(t) in local_dicts for t in node.targets):
+                return True
+            return isinstance(node, ast.Call) and isinstance(node.func, ast.Attribute) and node.func.attr in MUTATORS and base_name(node.func.value) in local_dicts
+        helpers = {f.name for f in ast.walk(fn) if isinstance(f, ast.FunctionDef) and f is not fn and any(mutates_local(n) for n in ast.walk(f))}
+        helper_lines = {n.lineno for f in ast.walk(fn) if isinstance(f, ast.FunctionDef) and f is not fn for n in ast.walk(f) if hasattr(n, "lineno")}
+        for node in ast.walk(fn):
+            ln = getattr(node, "lineno", 0)
+            if ln <= first_rebind or ln in helper_lines:
+                continue
+            if mutates_local(node) or (isinstance(node, ast.Call) and isinstance(node.func, ast.Name) and node.func.id in helpers):
+                acts.append((ln, "inPlaceInsert"))
     # an in-place insert on a thread-local dict is not a shared access: only self.<attr> bases were collected
     return sorted(set(acts))
 
